@@ -38,13 +38,13 @@ def run(tier: str, seed: int, replay=None) -> int:
             "the harness restores train/eval mode after export()",
         ],
         "design": ([("SNLifeMC_struct_quick", True, 0, "struct"), ("SNLifeMC_reuse_quick", True, 0, "reuse"),
-                    ("SNLifeMC_multi_quick", True, 0, "multi"), ("SNLifeMC_life_quick", True, 0, "life"),
+                    ("SNLifeMC_multi_quick", True, 240, "multi"), ("SNLifeMC_life_quick", True, 0, "life"),
                     ("SNLifeMC_ref_quick", False, 0, "ref")] if q else
                    [("SNLifeMC_struct_thorough", True, 0, "struct"), ("SNLifeMC_reuse_thorough", True, 0, "reuse"),
                     ("SNLifeMC_multi_thorough", True, 4000, "multi"), ("SNLifeMC_life_thorough", True, 0, "life"),
                     ("SNLifeMC_ref_thorough", False, 0, "ref")]),
         "sanity": ["SNLifeMC_pinned_cost"],
-        "n_random": 150 if q else 3000,
-        "procs": 4 if q else 6,
+        "n_random": 120 if q else 3000,
+        "procs": 8,
     }
     return sn_gen.run_check("C06", tier, seed, replay, plan)
